@@ -10,9 +10,12 @@ import (
 	"context"
 	"errors"
 	"fmt"
+	"encoding/json"
 	"io"
+	"math/rand"
 	"os"
 	"path/filepath"
+	"strconv"
 	"strings"
 	"sync"
 	"testing"
@@ -114,6 +117,228 @@ func TestVerifC14Classification(t *testing.T) {
 		_ = db.Close(context.Background())
 	}
 	if err := os.WriteFile(filepath.Join(outDir, "classification.out"), []byte(strings.Join(lines, "\n")+"\n"), 0o644); err != nil {
+		t.Fatal(err)
+	}
+}
+
+// ---- deepening round 2: GENERATED error chains through the real handleError, compared with NutsModel.C14.Receivers ----
+// An error is described by its Unwrap chain, outermost first (see Layer in Receivers.lean). c14Build makes the real Go
+// error; c14Chain reads a real error back into that description by walking errors.Unwrap.
+
+func c14Build(chain []string) error {
+	var err error
+	for i := len(chain) - 1; i >= 0; i-- {
+		switch chain[i] {
+		case "msg":
+			if err == nil {
+				err = errors.New("c14 leaf")
+			} else {
+				err = fmt.Errorf("c14 wrap %d: %w", i, err)
+			}
+		case "canceled":
+			err = context.Canceled
+		case "deadline":
+			err = context.DeadlineExceeded
+		case "ctx":
+			err = jsonld.ContextURLNotAllowedErr
+		case "ld:remote":
+			err = c14Ld(ld.LoadingRemoteContextFailed, err)
+		case "ld:doc":
+			err = c14Ld(ld.LoadingDocumentFailed, err)
+		case "ld:other":
+			err = c14Ld(ld.InvalidLocalContext, err)
+		case "db":
+			err = stoabs.DatabaseError(err)
+		case "fatal":
+			err = dag.EventFatal{Err: err}
+		}
+	}
+	return err
+}
+
+func c14Ld(code ld.ErrorCode, inner error) error {
+	if inner == nil {
+		return ld.NewJsonLdError(code, nil)
+	}
+	return ld.NewJsonLdError(code, inner)
+}
+
+func c14Chain(err error) string {
+	var l []string
+	for err != nil {
+		switch t := err.(type) {
+		case *ld.JsonLdError:
+			switch t.Code {
+			case ld.LoadingRemoteContextFailed:
+				l = append(l, "ld:remote")
+			case ld.LoadingDocumentFailed:
+				l = append(l, "ld:doc")
+			default:
+				l = append(l, "ld:other")
+			}
+		case stoabs.ErrDatabase:
+			l = append(l, "db")
+		case dag.EventFatal:
+			l = append(l, "fatal")
+		default:
+			switch err {
+			case context.Canceled:
+				l = append(l, "canceled")
+			case context.DeadlineExceeded:
+				l = append(l, "deadline")
+			case jsonld.ContextURLNotAllowedErr:
+				l = append(l, "ctx")
+			default:
+				l = append(l, "msg")
+			}
+		}
+		err = errors.Unwrap(err)
+	}
+	if len(l) == 0 {
+		return "-"
+	}
+	return strings.Join(l, ">")
+}
+
+// c14GenChain: 1-5 layers; sentinels only innermost; at most one ErrDatabase (stoabs.DatabaseError wraps once)
+func c14GenChain(rng *rand.Rand) []string {
+	wrappers := []string{"msg", "msg", "ld:remote", "ld:doc", "ld:other", "db", "fatal"}
+	leaves := []string{"msg", "msg", "canceled", "deadline", "ctx", "ctx", "ld:remote", "ld:other", "db"}
+	n := rng.Intn(5)
+	var c []string
+	db := false
+	for i := 0; i < n; i++ {
+		w := wrappers[rng.Intn(len(wrappers))]
+		if w == "fatal" && rng.Intn(3) != 0 {
+			w = "msg"
+		}
+		if w == "db" {
+			if db {
+				w = "msg"
+			}
+			db = true
+		}
+		c = append(c, w)
+	}
+	lf := leaves[rng.Intn(len(leaves))]
+	if lf == "db" && db {
+		lf = "msg"
+	}
+	return append(c, lf)
+}
+
+func TestVerifC14Receivers(t *testing.T) {
+	outDir := os.Getenv("VERIF_OUT")
+	if outDir == "" {
+		t.Skip("VERIF_OUT not set")
+	}
+	logrus.StandardLogger().SetOutput(io.Discard)
+	seed, _ := strconv.ParseInt(os.Getenv("VERIF_SEED"), 10, 64)
+	rng := rand.New(rand.NewSource(seed*7919 + 14))
+	n := 160
+	if os.Getenv("VERIF_TIER") == "thorough" {
+		n = 1200
+	}
+	var chains [][]string
+	// every single layer as a leaf, and the documented shapes, first
+	for _, c := range [][]string{{"msg"}, {"canceled"}, {"deadline"}, {"ctx"}, {"ld:remote"}, {"ld:doc"}, {"ld:other"}, {"db"}, {"fatal"},
+		{"msg", "ld:doc", "ctx"}, {"msg", "ld:remote", "msg"}, {"ld:remote", "ctx"}, {"ld:other", "ld:remote", "msg"}, {"ld:remote", "ld:other", "msg"},
+		{"fatal", "canceled"}, {"msg", "db", "deadline"}, {"ld:remote", "canceled"}, {"msg", "msg", "ctx"}} {
+		chains = append(chains, c)
+	}
+	if rp := os.Getenv("VERIF_REPLAY"); rp != "" {
+		chains = nil
+		data, err := os.ReadFile(rp)
+		if err != nil {
+			t.Fatal(err)
+		}
+		for _, l := range strings.Split(string(data), "\n") {
+			var op struct {
+				Cb []string `json:"cb"`
+			}
+			if strings.TrimSpace(l) != "" && json.Unmarshal([]byte(l), &op) == nil && len(op.Cb) > 0 {
+				chains = append(chains, op.Cb)
+			}
+		}
+	} else {
+		for len(chains) < n {
+			chains = append(chains, c14GenChain(rng))
+		}
+	}
+	dir := filepath.Join(outDir, "db-vcr-recv")
+	_ = os.MkdirAll(dir, 0o755)
+	defer os.RemoveAll(dir)
+	db, err := bbolt.CreateBBoltStore(filepath.Join(dir, "r.db"), stoabs.WithNoSync())
+	if err != nil {
+		t.Fatal(err)
+	}
+	// ONE real persistent notifier; its receiver answers with the real handleError of the case that owns the event.
+	// The retry delay is an hour: Notify runs the first notifyNow synchronously, the retry goroutine it may start sleeps
+	// until Close() cancels it - the shelf after Notify shows how the notifier read the answer.
+	byRef := map[string]error{}
+	answered := map[string]string{}
+	var mu sync.Mutex
+	nt := dag.NewNotifier("vcr_vcs", func(ev dag.Event) (bool, error) {
+		mu.Lock()
+		defer mu.Unlock()
+		done, rerr := ambassador{}.handleError(byRef[ev.Hash.String()]) // the real classification
+		answered[ev.Hash.String()] = fmt.Sprintf("done=%v|err=%s", done, c14Chain(rerr))
+		return done, rerr
+	}, dag.WithPersistency(db), dag.WithRetryDelay(time.Hour))
+	var ops, lines []string
+	for i, c := range chains {
+		tx := dag.CreateSignedTestTransaction(uint32(1000+i), time.Now(), nil, "application/vc+json", true)
+		ev := dag.Event{Type: dag.PayloadEventType, Hash: tx.Ref(), Transaction: tx, Payload: []byte{1}}
+		mu.Lock()
+		byRef[tx.Ref().String()] = c14Build(c)
+		mu.Unlock()
+		if got := c14Chain(c14Build(c)); got != strings.Join(c, ">") {
+			t.Fatalf("generator: chain %v builds an error that reads back as %s", c, got)
+		}
+		if err := db.Write(context.Background(), func(wtx stoabs.WriteTx) error { return nt.Save(wtx, ev) }); err != nil {
+			t.Fatal(err)
+		}
+		nt.Notify(ev)
+		class := "done"
+		_ = db.ReadShelf(context.Background(), "_vcr_vcs_jobs", func(r stoabs.Reader) error {
+			v, err := r.Get(stoabs.BytesKey(tx.Ref().Slice()))
+			if err != nil || v == nil {
+				return nil
+			}
+			job := struct {
+				Retries int    `json:"retries"`
+				Error   string `json:"error"`
+			}{}
+			_ = json.Unmarshal(v, &job)
+			switch {
+			case job.Retries > 20:
+				class = "fatal"
+			case job.Retries < 1 || job.Retries > 2:
+				// 1 = Notify's own notifyNow; 2 = the retry goroutine's immediate first attempt came in as well
+				class = fmt.Sprintf("retries=%d", job.Retries)
+			case job.Error == "receiver did not finish or fail":
+				class = "notDone"
+			case strings.HasSuffix(job.Error, jsonld.ContextURLNotAllowedErr.Error()):
+				class = "failCtx"
+			default:
+				class = "fail"
+			}
+			return nil
+		})
+		mu.Lock()
+		a := answered[tx.Ref().String()]
+		mu.Unlock()
+		b, _ := json.Marshal(map[string]interface{}{"op": "rvcr", "cb": c})
+		ops = append(ops, string(b))
+		lines = append(lines, "recv|"+a+"|class="+class)
+	}
+	time.Sleep(30 * time.Millisecond) // let the immediate first attempts of the retry goroutines finish before the store goes away
+	_ = nt.Close()
+	_ = db.Close(context.Background())
+	if err := os.WriteFile(filepath.Join(outDir, "ops.jsonl"), []byte(strings.Join(ops, "\n")+"\n"), 0o644); err != nil {
+		t.Fatal(err)
+	}
+	if err := os.WriteFile(filepath.Join(outDir, "impl.out"), []byte(strings.Join(lines, "\n")+"\n"), 0o644); err != nil {
 		t.Fatal(err)
 	}
 }
